@@ -21,3 +21,8 @@ def realTables {ν : Type} (isNum : ν → Bool) : Tables ν where
   isNum := isNum
 
 end BSE.Nwchem
+
+namespace BSE.Nwchem
+def realEcpTables {ν : Type} (isNum isInt : ν → Bool) : EcpTables ν :=
+  { realTables isNum with isInt := isInt, isDigits := fun s => !s.isEmpty && s.all Char.isDigit }
+end BSE.Nwchem
